@@ -55,8 +55,7 @@ def one_case(rng, tier):
 
 def check_case(case, counters, sets):
     ar = asyncrun.run_async(case)
-    if ar.stop in ('iter-cap', 'vt-cap'):
-        return ar, None
+    capped = ar.stop in ('iter-cap', 'vt-cap', 'watchdog')      # the safety clauses are still decidable on the prefix
     viols, seen = [], set()
 
     def add(key, what):
@@ -86,12 +85,13 @@ def check_case(case, counters, sets):
             add('C14:duplicate-delivery@latest', 'received %s, delivered %s' % ([v for _, v in arr], [v for _, v in dl]))
         else:
             add('C14:not-a-subsequence@latest', 'received %s, delivered %s' % ([v for _, v in arr], [v for _, v in dl]))
-    if arr and not ar.pending_emits and ar.producers_done:
+    if capped and not viols:
+        return ar, None
+    if arr and not capped and not ar.pending_emits and ar.producers_done:
         counters['newest_delivered_checks'] = counters.get('newest_delivered_checks', 0) + 1
         if not dl or dl[-1] != arr[-1]:
             add('C14:lost-final-element@latest', 'loop %s; received %s (last at t=%s), delivered %s (last at t=%s)'
                 % (ar.stop, [v for _, v in arr], I[-1][1], [v for _, v in dl], O[-1][1] if O else None))
-    # how many arrivals fell into busy periods
     ar.interesting = len(dl) < len(arr) or len(arr) >= 3
     sets.setdefault('interleaving_signatures', set()).add(asyncrun.signature(ar.log))
     counters['events_observed'] = counters.get('events_observed', 0) + len(ar.log.ev)
